@@ -9,6 +9,8 @@ package accumulation
 //                                           diverges, i.e. nothing after the loop is reached on that path
 //   switch { case x == nil: S0; default: S0 }      switch x { case nil: S0; default: S0 }
 //   switch { case x != nil && flagK: _ = *x; default: S0 }     switch { case x == nil || flagK: S0; default: _ = *x }
+//   if x != nil { for ... { _ = *x } }     if x == nil { return }; for ... { _ = *x }        (checks hoisted above loops)
+//   if !(x == nil) && flagK { _ = *x }     if nil == x || flagK { return }; _ = *x           (conjunction / disjunction)
 //   t = new(T) | t = nil | _ = t.val() | _ = t.safe()   with  type T int, val dereferencing its receiver and safe
 //                                           checking it first
 // Semantics are built as SMT terms exactly as in Harness_P01.
@@ -58,7 +60,7 @@ func p01SimpleText(k int) string {
 }
 
 func (g *p01Gen) structured() {
-	kind := ndChoice("structured", 11)
+	kind := ndChoice("structured", 15)
 	switch kind {
 	case 0: // counted loop
 		k := ndChoice("body", g.simple)
@@ -125,6 +127,32 @@ func (g *p01Gen) structured() {
 		g.emit("\t\t_ = *x")
 		g.emit("\t}")
 		g.applySimple(k1, l1, ndOr(g.x, fv))
+	case 11: // a nil check hoisted above a loop
+		g.emit("\tif x != nil {")
+		g.emit("\t\tfor k := 0; k < n; k++ {")
+		g.emit("\t\t\t_ = *x")
+		g.emit("\t\t}")
+		g.emit("\t}")
+	case 12: // an early return hoisted above a loop
+		g.emit("\tif x == nil {")
+		g.emit("\t\treturn")
+		g.emit("\t}")
+		g.emit("\tfor k := 0; k < n; k++ {")
+		g.emit("\t\t_ = *x")
+		g.emit("\t}")
+		g.live = ndAnd(g.live, ndNot(g.x))
+	case 13: // conjunction with another condition, negated spelling
+		f, _ := g.flag()
+		g.emit("\tif !(x == nil) && " + f + " {")
+		g.emit("\t\t_ = *x")
+		g.emit("\t}")
+	case 14: // disjunction with another condition guarding an early return
+		f, fv := g.flag()
+		g.emit("\tif nil == x || " + f + " {")
+		g.emit("\t\treturn")
+		g.emit("\t}")
+		g.emit("\t_ = *x")
+		g.live = ndAnd(g.live, ndNot(ndOr(g.x, fv)))
 	case 5:
 		g.emit("\tt = new(T)")
 		g.t = false
